@@ -102,10 +102,21 @@ func (w *limitWriter) Write(p []byte) (int, error) {
 // collect drains an iterator. stop > 0: the consumer declines at its stop-th
 // call. Returns canonical items, and a status: "" | "CALLED-AFTER-STOP" |
 // "NONTERM".
-func collect[T any](seq iter.Seq2[T, error], f func(T) string, stop int, limit int) ([]string, string) {
-	var items []string
-	status := ""
+func collect[T any](seq iter.Seq2[T, error], f func(T) string, stop int, limit int) (items []string, status string) {
+	var kept []T
+	var keptIdx []int
 	stopped := false
+	defer func() {
+		// items the consumer kept must still read the same after the iteration
+		// (a yielded record must not alias memory the iterator reuses)
+		if status == "" {
+			for k, v := range kept {
+				if safe(func() string { return f(v) }) != items[keptIdx[k]] {
+					status = "RETAINED-ITEM-CHANGED"
+				}
+			}
+		}
+	}()
 	func() {
 		defer func() {
 			if r := recover(); r != nil {
@@ -121,6 +132,8 @@ func collect[T any](seq iter.Seq2[T, error], f func(T) string, stop int, limit i
 				items = append(items, "E")
 			} else {
 				items = append(items, f(v))
+				kept = append(kept, v)
+				keptIdx = append(keptIdx, len(items)-1)
 			}
 			if len(items) >= limit {
 				status = "NONTERM"
